@@ -2171,7 +2171,13 @@ func (t *Target) String() string {
 	_, _ = buf.WriteString("INTO ")
 	_, _ = buf.WriteString(t.Measurement.String())
 	if t.Measurement.Name == "" {
-		_, _ = buf.WriteString(":MEASUREMENT")
+		if t.Measurement.Database == "" && t.Measurement.RetentionPolicy == "" {
+			// The back reference needs a database or a retention policy
+			// in front of it; on its own the empty name is written "".
+			_, _ = buf.WriteString(`""`)
+		} else {
+			_, _ = buf.WriteString(":MEASUREMENT")
+		}
 	}
 
 	return buf.String()
